@@ -73,6 +73,14 @@ def hx(n):
 
 # ---------------------------------------------------------------- bytes: descriptors, tokens, display
 _EXT0 = len(pickle.dumps({'x': ''}, 3))
+# extensions with a SECOND key that collides with a standard key of the dictionaries history() / undoLog() /
+# undoInfo() return (there the standard value — taken from the transaction header — must win); the value of 'x'
+# is made of a letter of its own per colliding key, so that the shadowed dictionary still identifies the bytes
+# Only 'tid' is used: undoLog()/undoInfo() let the extension overwrite their standard keys (`d.update(e)` in
+# UndoSearch — the documented shape of those entries), so 'size', 'description', 'user_name', 'time', 'id' would
+# change what THEY report on the unchanged code; 'tid' is standard in history() only, which protects its keys.
+_EXTK = {'tid': 't'}
+_EXTK0 = {k: len(pickle.dumps({'x': '', k: 'q'}, 3)) for k in _EXTK}
 _fnv_cache = {}
 
 
@@ -131,6 +139,13 @@ def mk_bytes(desc):
         return bytes([desc[1]]) * desc[2]
     if k == 'e':
         n = desc[1]
+        if len(desc) > 2 and desc[2]:
+            key = desc[2]
+            if n < _EXTK0[key]:
+                return b''
+            b = pickle.dumps({'x': _EXTK[key] * (n - _EXTK0[key]), key: 'q'}, 3)
+            assert len(b) == n
+            return b
         if n < _EXT0:
             return b''
         b = pickle.dumps({'x': 'a' * (n - _EXT0)}, 3)
@@ -408,7 +423,15 @@ class RealBase:
 
     def note_ext(self, e):
         if e:
-            self.ext_table[ext_key(pickle.loads(e))] = e
+            d = pickle.loads(e)
+            self.ext_table[ext_key(d)] = e
+            # (a key of the extension that is also a standard key of history() / undoLog() entries is shadowed there
+            # by the value from the transaction header: the rest of the dictionary identifies the bytes)
+            for std in (('time', 'user_name', 'description', 'tid', 'size'),
+                        ('time', 'user_name', 'description', 'id', 'size')):
+                f = {k: v for k, v in d.items() if k not in std}
+                if f != d:
+                    self.ext_table.setdefault(ext_key(f), e)
 
     def ext_of(self, d):
         return self.ext_table.get(ext_key(d), ('?' + ext_key(d)).encode())
@@ -1400,6 +1423,9 @@ def gen_ext(rng, big_ok):
     r = rng.random()
     if r < 0.6:
         return ['e', 0]
+    if r < 0.67:
+        key = rng.choice(sorted(_EXTK))
+        return ['e', _EXTK0[key] + rng.choice([1, 2, 3, 5]), key]     # ('x' never empty: it identifies the bytes)
     if r < 0.92 or not big_ok:
         return ['e', _EXT0 + rng.choice([0, 1, 5, 40])]
     return ['e', 65535]
